@@ -1,5 +1,6 @@
 import Lean.Data.Json
 import Mistral.Model.Sched
+import Mistral.Model.SchedLegacy
 open Lean Mistral.Sched
 namespace Mistral.Drv.Sched
 
@@ -110,10 +111,12 @@ def lstepOfJson (j : Json) : Except String LStep := do
     let kind ← k.getStr?
     let ns ← rest.mapM fun x => x.getNat?
     match kind, ns with
-    | "schedule", [ra, tx] => pure (.schedule ra tx)
+    | "schedule", [ra, key, tx] => pure (.schedule ra key tx)
+    | "scheduleBad", [ra, key, tx] => pure (.scheduleBad ra key tx)
     | "commit", [tx] => pure (.commit tx)
     | "rollback", [tx] => pure (.rollback tx)
     | "tick", [n] => pure (.tick n)
+    | "select", [i] => pure (.select i)
     | "capture", [i] => pure (.capture i)
     | "invoke", [i] => pure (.invoke i)
     | "delete", [i] => pure (.delete i)
@@ -123,20 +126,39 @@ def lstepOfJson (j : Json) : Except String LStep := do
 
 def lphaseJson : LPhase → Json
   | .idle => Json.arr #[Json.str "idle"]
-  | .captured ids => Json.arr #[Json.str "captured", toJson ids]
-  | .invoked ids => Json.arr #[Json.str "invoked", toJson ids]
+  | .selected cands => Json.arr #[Json.str "selected", toJson cands]
+  | .busy ids todo => Json.arr #[Json.str "busy", toJson ids, toJson todo]
 
-def lstateJson (s : LState) : Json :=
+def tripleJson (e : Nat × Nat × Nat) : Json := Json.arr #[toJson e.1, toJson e.2.1, toJson e.2.2]
+
+def lhasJson (s : LState) (keys : List Nat) : Json :=
+  let ks : List (Option Nat) := none :: keys.map some
+  Json.arr (ks.flatMap fun k => procs.map fun p =>
+    Json.arr #[optNat k, procJson p, toJson (lHasJobs s k p)]).toArray
+
+def lstateJson (batch : Option Nat) (s : LState) (keys : List Nat) : Json :=
   Json.mkObj [
     ("clock", toJson s.clock),
     ("rows", Json.arr (s.rows.map fun r =>
-      Json.arr #[toJson r.executeAt, toJson r.processing, Json.str (visStr r.vis)]).toArray),
+      Json.arr #[toJson r.executeAt, toJson r.processing, toJson r.key, toJson r.bad, Json.str (visStr r.vis)]).toArray),
     ("insts", Json.arr (s.insts.map fun x => Json.arr #[toJson x.1, lphaseJson x.2]).toArray),
-    ("log", Json.arr (s.log.reverse.map fun e => Json.arr #[toJson e.1, toJson e.2.1, toJson e.2.2]).toArray)]
+    ("log", Json.arr (s.log.reverse.map tripleJson).toArray),
+    ("caps", Json.arr (s.caps.reverse.map tripleJson).toArray),
+    ("has", lhasJson s keys),
+    ("pending", Json.arr (keys.map fun k => Json.arr #[toJson k, toJson (lPendingTruth s k)]).toArray),
+    ("eligible", Json.arr ((sortCands (lEligibleRows s.clock s.rows)).map fun c =>
+      Json.arr #[toJson c.1, toJson c.2.1]).toArray),
+    ("would_select", toJson (lSelect batch s.clock s.rows))]
 
-def lrunAll : LState → List LStep → List Json
+def lrunAll (batch : Option Nat) (keys : List Nat) : LState → List LStep → List Json
   | _, [] => []
-  | s, e :: es => let s' := lStep s e; lstateJson s' :: lrunAll s' es
+  | s, e :: es => let s' := lStep batch s e; lstateJson batch s' keys :: lrunAll batch keys s' es
+
+def optBatch (a : Json) : Except String (Option Nat) :=
+  match a.getObjVal? "batch" with
+  | .ok Json.null => pure none
+  | .ok x => do let n ← x.getNat?; pure (some n)
+  | .error _ => pure none
 
 def handle (fn : String) (a : Json) : Option (Except String Json) :=
   match fn with
@@ -153,9 +175,15 @@ def handle (fn : String) (a : Json) : Option (Except String Json) :=
         pure (stateJson cfg (run cfg (init n) steps) keys)
   | "sched.lrun" => some do
       let n ← a.getObjValAs? Nat "n"
+      let batch ← optBatch a
       let stepsJ ← a.getObjValAs? (Array Json) "steps"
       let steps ← stepsJ.toList.mapM lstepOfJson
-      pure (Json.arr (lrunAll (lInit n) steps).toArray)
+      let keys ← natsOf (← a.getObjVal? "keys")
+      let all ← a.getObjValAs? Bool "all"
+      if all then
+        pure (Json.arr (lrunAll batch keys (lInit n) steps).toArray)
+      else
+        pure (lstateJson batch (lRun batch (lInit n) steps) keys)
   | _ => none
 
 end Mistral.Drv.Sched
